@@ -366,7 +366,7 @@ def run_groups(binary, groups, timeout=10, max_hangs=2):
             if hangs >= max_hangs:
                 out[i] = ("DIED skipped", ["DIED skipped after %d timeouts" % hangs] * len(ops))
                 continue
-            rc, so, se = core.sh_out([binary], input=hdr + "\n" + "\n".join(ops) + "\n", timeout=timeout)
+            rc, so, se = core.sh_out([binary], input=hdr + "\n" + "\n".join(ops) + "\n", timeout=max(600, 30 * timeout), cpu=timeout)   # CPU seconds, wall time only as a backstop
             lines = so.split("\n")
             if lines and lines[-1] == "":
                 lines.pop()
